@@ -1,4 +1,5 @@
 import CppUModel.Proofs.TeamCity
+import CppUModel.Proofs.FailureCtorsName
 /-!
 Helper lemmas for C20, part 2: the message list of a run of the registry loop, piece by piece
 (group start, one test, group end), for the balance automaton and for "failures name the open test".
@@ -47,6 +48,12 @@ theorem runB_append (p : Phase) (s : St) (a b : List Ev) :
 
 theorem runB_nil (p : Phase) (s : St) : runB p s [] = some p := rfl
 
+/-- a failure that names the open test keeps it open and does not touch the writer's state -/
+theorem failure_keeps_open (t : TestInfo) (g : Bytes) (f : Failure) (hf : f.testName = t.name) (es : List Ev) (s : St) :
+    runB (.inTest g t.name) s (.failure f :: es) = runB (.inTest g t.name) s es ∧
+    stAfter s (.failure f :: es) = stAfter s es := by
+  simp [runB, msgsFrom_cons, stAfter_cons, msgsOf, step, balRun, balStep, hf]
+
 /-- the body of a test: prints and failures keep the test open, the writer's state is not touched -/
 theorem acts_keep_open (t : TestInfo) (g : Bytes) : ∀ (acts : List Act) (s : St),
     runB (.inTest g t.name) s (actEvs t acts) = some (.inTest g t.name) ∧ stAfter s (actEvs t acts) = s
@@ -56,14 +63,35 @@ theorem acts_keep_open (t : TestInfo) (g : Bytes) : ∀ (acts : List Act) (s : S
     simp only [actEvs, runB, msgsFrom_cons, stAfter_cons, msgsOf, step, List.cons_append, List.nil_append, balRun, balStep]
     exact ih
   | .fail f l m :: as, s => by
-    have ih := acts_keep_open t g as s
-    simp only [actEvs, runB, msgsFrom_cons, stAfter_cons, msgsOf, step, List.cons_append, List.nil_append, balRun, balStep,
-      mkFailure, if_true]
-    exact ih
+    have h := failure_keeps_open t g _ (locMsgFailure_testName t f l m) (actEvs t as) s
+    rw [actEvs, h.1, h.2]; exact acts_keep_open t g as s
+  | .failMsg m :: as, s => by
+    have h := failure_keeps_open t g _ (msgFailure_testName t m) (actEvs t as) s
+    rw [actEvs, h.1, h.2]; exact acts_keep_open t g as s
+  | .failLoc f l :: as, s => by
+    have h := failure_keeps_open t g _ (locFailure_testName t f l) (actEvs t as) s
+    rw [actEvs, h.1, h.2]; exact acts_keep_open t g as s
   | .failExit f l m :: _, s => by
-    simp [actEvs, runB, msgsFrom_cons, msgsFrom_nil, stAfter_cons, stAfter_nil, msgsOf, step, balRun, balStep, mkFailure]
+    have h := failure_keeps_open t g _ (exitFailure_testName t f l m) [] s
+    rw [actEvs, h.1, h.2]; exact ⟨rfl, rfl⟩
+  | .postFail _ :: as, s => by simpa [actEvs] using acts_keep_open t g as s
   | .checks _ :: as, s => by simpa [actEvs] using acts_keep_open t g as s
   | .tick _ :: as, s => by simpa [actEvs] using acts_keep_open t g as s
+
+/-- the plugin's post-test failures name the open test as well -/
+theorem post_keep_open (t : TestInfo) (g : Bytes) : ∀ (acts : List Act) (s : St),
+    runB (.inTest g t.name) s (postEvs t acts) = some (.inTest g t.name) ∧ stAfter s (postEvs t acts) = s
+  | [], s => by simp [postEvs, runB_nil, stAfter_nil]
+  | .postFail m :: as, s => by
+    have h := failure_keeps_open t g _ (msgFailure_testName t m) (postEvs t as) s
+    rw [postEvs, h.1, h.2]; exact post_keep_open t g as s
+  | .print _ _ _ :: as, s => by simpa [postEvs] using post_keep_open t g as s
+  | .fail _ _ _ :: as, s => by simpa [postEvs] using post_keep_open t g as s
+  | .failExit _ _ _ :: as, s => by simpa [postEvs] using post_keep_open t g as s
+  | .failMsg _ :: as, s => by simpa [postEvs] using post_keep_open t g as s
+  | .failLoc _ _ :: as, s => by simpa [postEvs] using post_keep_open t g as s
+  | .checks _ :: as, s => by simpa [postEvs] using post_keep_open t g as s
+  | .tick _ :: as, s => by simpa [postEvs] using post_keep_open t g as s
 
 /-- one test (started, body, ended) inside an open suite leaves the suite open -/
 theorem test_keeps_suite (sc : Script) (r : R) (s : St) (g : Bytes) (hg : s.currGroup = g) :
@@ -73,20 +101,21 @@ theorem test_keeps_suite (sc : Script) (r : R) (s : St) (g : Bytes) (hg : s.curr
   · simp [runB, msgsFrom_cons, msgsFrom_nil, stAfter_cons, stAfter_nil, msgsOf, step, balRun, balStep, hw, hg]
   · simp only [if_true]
     have ha := acts_keep_open sc.info g sc.acts { s with currTest := some sc.info.name }
+    have hp := post_keep_open sc.info g sc.acts { s with currTest := some sc.info.name }
     constructor
-    · show runB (.inSuite g) s ([Ev.testStarted sc.info] ++ (actEvs sc.info sc.acts ++ [Ev.testEnded _ _])) = _
+    · show runB (.inSuite g) s ([Ev.testStarted sc.info] ++ (actEvs sc.info sc.acts ++ (postEvs sc.info sc.acts ++ [Ev.testEnded _ _]))) = _
       rw [runB_append]
       have h1 : runB (.inSuite g) s [Ev.testStarted sc.info] = some (.inTest g sc.info.name) := by
         simp [runB, msgsFrom_cons, msgsFrom_nil, msgsOf, hw, balRun, balStep]
       have h2 : stAfter s [Ev.testStarted sc.info] = { s with currTest := some sc.info.name } := by
         simp [stAfter_cons, stAfter_nil, step]
-      rw [h1, h2, Option.bind_some, runB_append, ha.1, ha.2, Option.bind_some]
+      rw [h1, h2, Option.bind_some, runB_append, ha.1, ha.2, Option.bind_some, runB_append, hp.1, hp.2, Option.bind_some]
       simp [runB, msgsFrom_cons, msgsFrom_nil, msgsOf, balRun, balStep]
-    · show (stAfter s ([Ev.testStarted sc.info] ++ (actEvs sc.info sc.acts ++ [Ev.testEnded _ _]))).currGroup = g
-      rw [stAfter_append, stAfter_append]
+    · show (stAfter s ([Ev.testStarted sc.info] ++ (actEvs sc.info sc.acts ++ (postEvs sc.info sc.acts ++ [Ev.testEnded _ _])))).currGroup = g
+      rw [stAfter_append, stAfter_append, stAfter_append]
       have h2 : stAfter s [Ev.testStarted sc.info] = { s with currTest := some sc.info.name } := by
         simp [stAfter_cons, stAfter_nil, step]
-      rw [h2, ha.2]
+      rw [h2, ha.2, hp.2]
       simp [stAfter_cons, stAfter_nil, step, hg]
 
 theorem body_keeps_suite (flt : Option Filter) (sc : Script) (r : R) (s : St) (g : Bytes) (hg : s.currGroup = g) :
@@ -171,6 +200,11 @@ theorem openAfter_append (a b : List Msg) : ∀ cur,
   | nil => intro cur; rfl
   | cons m a ih => intro cur; cases m <;> simp [openAfter, ih]
 
+theorem failure_in_open (t : TestInfo) (f : Failure) (hf : f.testName = t.name) (es : List Ev) (s : St) :
+    failuresInOpenTest (some t.name) (msgsFrom s (.failure f :: es)) = failuresInOpenTest (some t.name) (msgsFrom s es) ∧
+    openAfter (some t.name) (msgsFrom s (.failure f :: es)) = openAfter (some t.name) (msgsFrom s es) := by
+  simp [msgsFrom_cons, msgsOf, step, failuresInOpenTest, openAfter, hf]
+
 theorem acts_failures_open (t : TestInfo) : ∀ (acts : List Act) (s : St),
     failuresInOpenTest (some t.name) (msgsFrom s (actEvs t acts)) = true ∧
     openAfter (some t.name) (msgsFrom s (actEvs t acts)) = some t.name
@@ -178,11 +212,35 @@ theorem acts_failures_open (t : TestInfo) : ∀ (acts : List Act) (s : St),
   | .print f l x :: as, s => by
     simpa [actEvs, msgsFrom_cons, msgsOf, step, failuresInOpenTest, openAfter] using acts_failures_open t as s
   | .fail f l m :: as, s => by
-    simpa [actEvs, msgsFrom_cons, msgsOf, step, failuresInOpenTest, openAfter, mkFailure] using acts_failures_open t as s
+    have h := failure_in_open t _ (locMsgFailure_testName t f l m) (actEvs t as) s
+    rw [actEvs, h.1, h.2]; exact acts_failures_open t as s
+  | .failMsg m :: as, s => by
+    have h := failure_in_open t _ (msgFailure_testName t m) (actEvs t as) s
+    rw [actEvs, h.1, h.2]; exact acts_failures_open t as s
+  | .failLoc f l :: as, s => by
+    have h := failure_in_open t _ (locFailure_testName t f l) (actEvs t as) s
+    rw [actEvs, h.1, h.2]; exact acts_failures_open t as s
   | .failExit f l m :: _, s => by
-    simp [actEvs, msgsFrom_cons, msgsFrom_nil, msgsOf, failuresInOpenTest, openAfter, mkFailure]
+    have h := failure_in_open t _ (exitFailure_testName t f l m) [] s
+    rw [actEvs, h.1, h.2]; simp [msgsFrom_nil, failuresInOpenTest, openAfter]
+  | .postFail _ :: as, s => by simpa [actEvs] using acts_failures_open t as s
   | .checks _ :: as, s => by simpa [actEvs] using acts_failures_open t as s
   | .tick _ :: as, s => by simpa [actEvs] using acts_failures_open t as s
+
+theorem post_failures_open (t : TestInfo) : ∀ (acts : List Act) (s : St),
+    failuresInOpenTest (some t.name) (msgsFrom s (postEvs t acts)) = true ∧
+    openAfter (some t.name) (msgsFrom s (postEvs t acts)) = some t.name
+  | [], s => by simp [postEvs, msgsFrom_nil, failuresInOpenTest, openAfter]
+  | .postFail m :: as, s => by
+    have h := failure_in_open t _ (msgFailure_testName t m) (postEvs t as) s
+    rw [postEvs, h.1, h.2]; exact post_failures_open t as s
+  | .print _ _ _ :: as, s => by simpa [postEvs] using post_failures_open t as s
+  | .fail _ _ _ :: as, s => by simpa [postEvs] using post_failures_open t as s
+  | .failExit _ _ _ :: as, s => by simpa [postEvs] using post_failures_open t as s
+  | .failMsg _ :: as, s => by simpa [postEvs] using post_failures_open t as s
+  | .failLoc _ _ :: as, s => by simpa [postEvs] using post_failures_open t as s
+  | .checks _ :: as, s => by simpa [postEvs] using post_failures_open t as s
+  | .tick _ :: as, s => by simpa [postEvs] using post_failures_open t as s
 
 theorem test_failures_open (sc : Script) (r : R) (s : St) (cur : Option Bytes) :
     failuresInOpenTest cur (msgsFrom s (testEvs sc r)) = true := by
@@ -191,16 +249,18 @@ theorem test_failures_open (sc : Script) (r : R) (s : St) (cur : Option Bytes) :
   · simp [msgsFrom_cons, msgsFrom_nil, msgsOf, step, hw, failuresInOpenTest]
   · simp only [if_true]
     have ha := acts_failures_open sc.info sc.acts { s with currTest := some sc.info.name }
-    show failuresInOpenTest cur (msgsFrom s ([Ev.testStarted sc.info] ++ (actEvs sc.info sc.acts ++ [Ev.testEnded _ _]))) = _
-    rw [msgsFrom_append, msgsFrom_append]
+    have hst := (acts_keep_open sc.info [] sc.acts { s with currTest := some sc.info.name }).2
+    have hp := post_failures_open sc.info sc.acts { s with currTest := some sc.info.name }
+    have hst2 := (post_keep_open sc.info [] sc.acts { s with currTest := some sc.info.name }).2
+    show failuresInOpenTest cur (msgsFrom s ([Ev.testStarted sc.info] ++ (actEvs sc.info sc.acts ++ (postEvs sc.info sc.acts ++ [Ev.testEnded _ _])))) = _
+    rw [msgsFrom_append, msgsFrom_append, msgsFrom_append]
     have h2 : stAfter s [Ev.testStarted sc.info] = { s with currTest := some sc.info.name } := by
       simp [stAfter_cons, stAfter_nil, step]
     have h1 : msgsFrom s [Ev.testStarted sc.info] = [.testStarted sc.info.name] := by
       simp [msgsFrom_cons, msgsFrom_nil, msgsOf, hw]
-    rw [h2, h1, failuresInOpenTest_append, failuresInOpenTest_append]
-    simp only [failuresInOpenTest, openAfter, ha.1, ha.2, Bool.true_and]
-    cases hc : (stAfter { s with currTest := some sc.info.name } (actEvs sc.info sc.acts)).currTest <;>
-      simp [msgsFrom_cons, msgsFrom_nil, msgsOf, hc, failuresInOpenTest]
+    rw [h2, h1, hst, hst2, failuresInOpenTest_append, failuresInOpenTest_append, failuresInOpenTest_append]
+    simp only [failuresInOpenTest, openAfter, ha.1, ha.2, hp.1, hp.2, Bool.true_and]
+    simp [msgsFrom_cons, msgsFrom_nil, msgsOf, failuresInOpenTest]
 
 theorem loop_failures_open (flt : Option Filter) : ∀ (tests : List Script) (gs : Bool) (g0 : Nat) (r : R) (s : St)
     (cur : Option Bytes), failuresInOpenTest cur (msgsFrom s (loop flt gs g0 r tests)) = true
